@@ -192,14 +192,64 @@ class Engine:
             ck.ob(rule, oid, False, 'ANCHOR-MISSING: %s resolves to %d functions; obligation "%s" can no longer be checked' % (spec['fn'], len(cands), spec.get('why', '')), spec['fn'])
             return None
         fn = cands[0]
-        fl = self.flow_of(fn, spec.get('depth', 0), spec.get('lits', False), spec.get('only'))
-        evs = self.events(fl, spec['kind'], spec.get('callee'))
+        # attempts: the row as written; then two refactoring-tolerant readings - (a) the check was moved into a helper of the same
+        # file (callees of that file inlined to depth 2), (b) the callee of a `try`/`call` row was inlined into the anchor, so the
+        # check is now an Err-guard fed by the same sources
+        attempts = [(spec['kind'], None, '')]
+        if spec['kind'] in ('try', 'call', 'guard', 'sink', 'assert_or_guard') and not spec.get('depth'):
+            attempts.append((spec['kind'], 'helpers', ' (found through a helper function of the same file)'))
+        if spec['kind'] in ('try',) and spec.get('src'):
+            attempts.append(('guard', None, ' (the callee of this row has been inlined: an Err-guard fed by the same sources)'))
+            attempts.append(('guard', 'helpers', ' (inlined form, inside a helper of the same file)'))
+        first_best = None
+        for kind, mode, note in attempts:
+            if mode == 'helpers':
+                fl = self.helper_flow(fn, spec.get('callee'), spec.get('lits', False))
+            else:
+                fl = self.flow_of(fn, spec.get('depth', 0), spec.get('lits', False), spec.get('only'))
+            e, best, best_missing, partial = self._match(spec, fn, fl, kind)
+            if partial:
+                ck.ob(rule, oid, False, 'PARTIAL-ITERATION: the loop around this check ranges over a truncated sequence (%s): some elements are never checked. %s' % (','.join(partial), spec.get('why', '')), e.loc())
+                return None
+            if e is not None:
+                ck.ob(rule, oid, True, '%s: %s%s' % (spec.get('why', ''), self._describe(e), note), e.loc())
+                return e
+            if first_best is None:
+                first_best = (best, best_missing)
+        best, best_missing = first_best
+        if best is None:
+            detail = 'no %s%s found in %s' % (spec['kind'], (' of ' + str(spec.get('callee'))) if spec.get('callee') else '', fn.qual)
+            loc = '%s:%d' % (fn.file, fn.line)
+        else:
+            detail = 'closest %s at %s lacks: %s' % (spec['kind'], best.loc(), ', '.join(best_missing))
+            loc = best.loc()
+        ck.ob(rule, oid, False, 'MISSING CHECK in %s: %s. %s' % (fn.qual, detail, spec.get('why', '')), loc)
+        return None
+
+    def helper_flow(self, fn, callee, lits=False):
+        """the anchor with the non-trait callees defined in the same file inlined (depth 2); the row's own callee stays a call"""
+        names = set(callee) if isinstance(callee, (set, list, tuple)) else ({callee} if callee else set())
+        key = (fn.d, 'helpers', lits, tuple(sorted(names)))
+        if key not in self._flows:
+            F = self.F
+
+            def inl(c, d, ev):
+                f2 = F.fns.get(c)
+                if f2 is None or f2.body is None or f2.file != fn.file or f2.trait or f2.name in names or f2.d == fn.d:
+                    return None
+                return f2
+            self._flows[key] = flow.Flow(F, fn, inline=inl, depth=2, lits=lits)
+        return self._flows[key]
+
+    def _match(self, spec, fn, fl, kind):
+        """(satisfying event | None, closest event, what it lacks, partial-iteration adaptors)"""
+        evs = self.events(fl, kind, spec.get('callee') if kind == spec['kind'] else None)
         best = None
         best_missing = None
         for e in evs:
             if spec.get('maxstack') is not None and len(e.stack) > spec['maxstack']:
                 continue
-            if spec['kind'] == 'assign':
+            if kind == 'assign':
                 if spec.get('var') and spec['var'] not in self._assign_names(e):
                     continue
             deps = e.deps()
@@ -214,20 +264,11 @@ class Engine:
                         if fr[0] == 'loop' and fr[3] is not None:
                             bad += is_partial_iter(fr[3])
                     if bad:
-                        ck.ob(rule, oid, False, 'PARTIAL-ITERATION: the loop around this check ranges over a truncated sequence (%s): some elements are never checked. %s' % (','.join(bad), spec.get('why', '')), e.loc())
-                        return None
-                ck.ob(rule, oid, True, '%s: %s' % (spec.get('why', ''), self._describe(e)), e.loc())
-                return e
+                        return e, e, [], bad
+                return e, e, [], None
             if best_missing is None or len(allm) < len(best_missing):
                 best, best_missing = e, allm
-        if best is None:
-            detail = 'no %s%s found in %s' % (spec['kind'], (' of ' + str(spec.get('callee'))) if spec.get('callee') else '', fn.qual)
-            loc = '%s:%d' % (fn.file, fn.line)
-        else:
-            detail = 'closest %s at %s lacks: %s' % (spec['kind'], best.loc(), ', '.join(best_missing))
-            loc = best.loc()
-        ck.ob(rule, oid, False, 'MISSING CHECK in %s: %s. %s' % (fn.qual, detail, spec.get('why', '')), loc)
-        return None
+        return None, best, best_missing, None
 
     def _rename_tolerant(self, fn, deps, src, miss):
         """a source `p:<name>` whose name is no longer a parameter of the anchor (renamed parameter) is satisfied by the flow
